@@ -145,6 +145,10 @@ func resolveName(p *Prog, name string) (fnName string, ok bool) {
 func dumpFunc(p *Prog, name string) {
 	parts := strings.Split(name, ".")
 	g := NewGate(p)
+	g.Search = os.Getenv("UFCHECK_SEARCH") != ""
+	if os.Getenv("UFCHECK_NOINLINE") != "" {
+		g.Inline = inlineOnly()
+	}
 	var s *Summary
 	switch len(parts) {
 	case 2:
